@@ -58,7 +58,10 @@ def exc_info(e):
         if 'adsg_core' in fr.filename:
             site = '%s:%s:%s' % (fr.filename.split('adsg_core/')[-1], fr.lineno, fr.name)
             break
-    return {'type': type(e).__name__, 'msg': str(e)[:300], 'site': site}
+    out = {'type': type(e).__name__, 'msg': str(e)[:300], 'site': site}
+    if site is None and tb:
+        out['harness_site'] = '%s:%s:%s' % (tb[-1].filename.split('/')[-1], tb[-1].lineno, tb[-1].name)
+    return out
 
 
 def walk(b, max_paths=5000, orders='all', rnd=None):
